@@ -6,8 +6,6 @@ import (
 	"verifsim/core"
 )
 
-type FlipPlan struct{}
-type ScriptPlan struct{}
 type HistoryPlan struct{}
 type PipePlan struct{}
 type HostilePlan struct{}
@@ -15,18 +13,12 @@ type StallPlan struct{}
 type KeySetPlan struct{}
 type CtxPlan struct{}
 
-func genC02(s uint64, idx int, tier string) *Plan { return nil }
-func genC03(s uint64, idx int) *Plan              { return nil }
-func genC04(s uint64, idx int) *Plan              { return nil }
-func genC05(s uint64, idx int) *Plan              { return nil }
 func genC06(s uint64, idx int) *Plan              { return nil }
 func genC07(s uint64, idx int, tier string) *Plan { return nil }
 func genC08(s uint64, idx int) *Plan              { return nil }
 func genC09(s uint64, idx int) *Plan              { return nil }
 func genC10(s uint64, idx int) *Plan              { return nil }
 
-func executeFlip(t *testing.T, prop string, seed uint64, p *FlipPlan) *core.Result       { return nil }
-func executeScript(t *testing.T, prop string, seed uint64, p *ScriptPlan) *core.Result   { return nil }
 func executeHistory(t *testing.T, prop string, seed uint64, p *HistoryPlan) *core.Result { return nil }
 func executePipe(t *testing.T, prop string, seed uint64, p *PipePlan) *core.Result       { return nil }
 func executeHostile(t *testing.T, prop string, seed uint64, p *HostilePlan) *core.Result { return nil }
@@ -34,11 +26,9 @@ func executeStall(t *testing.T, prop string, seed uint64, p *StallPlan) *core.Re
 func executeKeySet(t *testing.T, prop string, seed uint64, p *KeySetPlan) *core.Result   { return nil }
 func executeCtx(t *testing.T, prop string, seed uint64, p *CtxPlan) *core.Result         { return nil }
 
-func shrinkScript(p *Plan) []*Plan  { return nil }
 func shrinkHistory(p *Plan) []*Plan { return nil }
 func shrinkPipe(p *Plan) []*Plan    { return nil }
 func shrinkHostile(p *Plan) []*Plan { return nil }
 func shrinkKeySet(p *Plan) []*Plan  { return nil }
 func shrinkCtx(p *Plan) []*Plan     { return nil }
-func shrinkFlip(p *Plan) []*Plan    { return nil }
 func shrinkStall(p *Plan) []*Plan   { return nil }
